@@ -28,6 +28,8 @@ import (
 	"runtime"
 	"sort"
 	"strings"
+	"sync/atomic"
+	"time"
 
 	"github.com/gotd/td/bin"
 	"github.com/gotd/td/mt"
@@ -520,6 +522,7 @@ type replay struct {
 	Canon bool   `json:"canonical,omitempty"`
 	Hex   string `json:"hex,omitempty"`
 	Depth int    `json:"depth,omitempty"`
+	Tail  int    `json:"tail,omitempty"` // this many 0xff bytes follow Hex (large-input preallocation cases)
 }
 
 type H struct {
@@ -836,6 +839,209 @@ func discoverBoxes() []reflect.Type {
 	return res
 }
 
+
+// ---------- vector count sites ----------
+
+// A site is a top-level vector field of a constructor together with a valid encoding in which
+// that vector has two elements and the offset of its count word. The offset is found without
+// knowledge of the schema: the same value is encoded with two and with one element; the first
+// word in which the encodings differ is the count.
+type site struct {
+	reg   *registry
+	id    uint32
+	field string
+	enc   []byte
+	off   int
+}
+
+func (h *H) vectorSites(reg *registry, id uint32, r *hx.Rand) []site {
+	var out []site
+	t := reflect.TypeOf(reg.ctors[id]()).Elem()
+	for i := 0; i < t.NumField(); i++ {
+		ft := t.Field(i).Type
+		if ft.Kind() != reflect.Slice || ft.Elem().Kind() == reflect.Uint8 {
+			continue
+		}
+		g := &gen{r: r.Fork(), reg: reg, canonical: true}
+		o := reg.ctors[id]()
+		sv := reflect.ValueOf(o).Elem()
+		// small canonical value: only what has to be there, then the vector under test
+		nl := nullable(t)
+		for j := 0; j < t.NumField(); j++ {
+			if !nl[t.Field(j).Name] && j != i {
+				g.fillValue(sv.Field(j), 3)
+			}
+		}
+		two := reflect.MakeSlice(ft, 2, 2)
+		g.fillValue(two.Index(0), 3)
+		g.fillValue(two.Index(1), 3)
+		sv.Field(i).Set(two)
+		g.canonicalize(reflect.ValueOf(o), 0)
+		e2 := goEncode(o, kBoxed)
+		sv.Field(i).Set(sv.Field(i).Slice(0, 1))
+		e1 := goEncode(o, kBoxed)
+		if e2.err != nil || e1.err != nil || e2.panicked || e1.panicked {
+			continue
+		}
+		off := -1
+		for w := 0; w+4 <= len(e1.bytes) && w+4 <= len(e2.bytes); w += 4 {
+			if !bytes.Equal(e1.bytes[w:w+4], e2.bytes[w:w+4]) {
+				off = w
+				break
+			}
+		}
+		if off < 0 || !bytes.Equal(e2.bytes[off:off+4], []byte{2, 0, 0, 0}) || !bytes.Equal(e1.bytes[off:off+4], []byte{1, 0, 0, 0}) {
+			continue
+		}
+		out = append(out, site{reg: reg, id: id, field: t.Field(i).Name, enc: e2.bytes, off: off})
+	}
+	return out
+}
+
+func put32(b []byte, off int, v uint32) {
+	b[off], b[off+1], b[off+2], b[off+3] = byte(v), byte(v>>8), byte(v>>16), byte(v>>24)
+}
+
+// countBoundaries decodes the site's encoding with the count word replaced by boundary values
+// (negative, around the preallocation limit, maximal).
+func (h *H) countBoundaries(s site, vals []int32, coqChance int) {
+	for _, v := range vals {
+		data := append([]byte(nil), s.enc...)
+		put32(data, s.off, uint32(v))
+		h.bytesCase(s.reg, kBoxed, s.id, nil, data, "vec-count", h.c.Rng.Chance(1, coqChance), 1<<20+64*int64(len(data)))
+	}
+}
+
+// largeInput: the site's prefix up to the count, a huge count, and a LARGE tail of 0xff bytes
+// (no element starts with the id 0xffffffff, so boxed elements fail at once). Whatever the
+// decoder allocates before it fails is preallocation; it must not grow with the input.
+type largeBuf struct {
+	buf  []byte
+	head int
+}
+
+func newLargeBuf(tail int) *largeBuf {
+	l := &largeBuf{buf: make([]byte, 1<<16+tail), head: 1 << 16}
+	for i := l.head; i < len(l.buf); i++ {
+		l.buf[i] = 0xff
+	}
+	return l
+}
+
+func (h *H) largeInput(s site, count int32, lb *largeBuf) {
+	c := h.c
+	if s.off+4 > lb.head {
+		return
+	}
+	start := lb.head - (s.off + 4)
+	copy(lb.buf[start:], s.enc[:s.off])
+	put32(lb.buf, lb.head-4, uint32(count))
+	data := lb.buf[start:]
+	tail := len(lb.buf) - lb.head
+	c.Obs.Evaluations++
+	rp := replay{Mode: "bytes", Sch: s.reg.sch, Kind: kBoxed, ID: s.id, Hex: hex.EncodeToString(data[:s.off+4]), Tail: tail}
+	h.watch(rp)
+	o := s.reg.ctors[s.id]()
+	buf := &bin.Buffer{Buf: data}
+	var err error
+	var m0, m1 runtime.MemStats
+	runtime.ReadMemStats(&m0)
+	panicked, pval := hx.Recover(func() { err = o.Decode(buf) })
+	runtime.ReadMemStats(&m1)
+	h.unwatch()
+	name := typeName(o)
+	switch {
+	case panicked:
+		c.Count("vec-large:panic")
+		c.Violate("decode-panic:other", fmt.Sprintf("%s.%s: Decode(%s + %d x ff) panicked: %v", s.reg.name, name, rp.Hex, tail, pval), -1, 0, rp)
+		return
+	case err == nil || len(buf.Buf) < tail-1024:
+		// elements without an id (or primitives) legitimately consumed the tail
+		c.Count("vec-large:consumed")
+		return
+	}
+	c.Count("vec-large:failed-early")
+	c.Nontrivial(fmt.Sprintf("large:%d:%d:%s", s.reg.sch, s.id, s.field))
+	got := int64(m1.TotalAlloc - m0.TotalAlloc)
+	if bound := int64(1<<20 + 64*(s.off+4)); got > bound {
+		c.Violate("prealloc-exceeds-limit", fmt.Sprintf("%s.%s field %s: a failing Decode of %d bytes (count %d, no valid element) allocated %d bytes (> %d): the preallocation grows with the input",
+			s.reg.name, name, s.field, len(data), count, got, bound), -1, 0, rp)
+	}
+}
+
+// ---------- watchdog: a case that does not return becomes a violation with a replay ----------
+
+type watched struct {
+	rp    replay
+	since time.Time
+}
+
+var watching atomic.Pointer[watched]
+
+func (h *H) watch(rp replay) { watching.Store(&watched{rp: rp, since: time.Now()}) }
+func (h *H) unwatch()        { watching.Store(nil) }
+func (h *H) watchdog(limit time.Duration) {
+	go func() {
+		for {
+			time.Sleep(time.Second)
+			if w := watching.Load(); w != nil && time.Since(w.since) > limit {
+				h.c.Violate("decode-hangs", fmt.Sprintf("a single Encode/Decode did not return within %s", limit), -1, 0, w.rp)
+				h.c.Finish()
+				os.Exit(0)
+			}
+		}
+	}()
+}
+
+// ---------- truncated deep nesting (subprocess): cost of the error path ----------
+
+func truncChild(levels int) {
+	data := deepPayload(levels)
+	data = data[:4*levels] // no terminator: the innermost decode fails with unexpected EOF
+	var m0, m1 runtime.MemStats
+	runtime.GC()
+	runtime.ReadMemStats(&m0)
+	t0 := time.Now()
+	_, err := tg.DecodeRichText(&bin.Buffer{Buf: data})
+	d := time.Since(t0)
+	runtime.ReadMemStats(&m1)
+	n := 0
+	if err != nil {
+		n = len(err.Error())
+	}
+	fmt.Printf("trunc: levels=%d input=%d alloc=%d errlen=%d ms=%d\n", levels, len(data), m1.TotalAlloc-m0.TotalAlloc, n, d.Milliseconds())
+	os.Exit(0)
+}
+
+func (h *H) trunc(levels int) (alloc int64, ok bool) {
+	c := h.c
+	c.Obs.Evaluations++
+	exe, err := os.Executable()
+	if err != nil {
+		return 0, false
+	}
+	cmd := exec.Command(exe, "-trunc", fmt.Sprint(levels), "-out", c.Out)
+	cmd.Env = append(os.Environ(), "GOMEMLIMIT=1GiB")
+	var out bytes.Buffer
+	cmd.Stdout, cmd.Stderr = &out, &out
+	done := make(chan error, 1)
+	_ = cmd.Start()
+	go func() { done <- cmd.Wait() }()
+	select {
+	case err = <-done:
+	case <-time.After(120 * time.Second):
+		_ = cmd.Process.Kill()
+		err = errors.New("timeout")
+	}
+	var lv, in, el, ms int
+	if _, e := fmt.Sscanf(strings.TrimSpace(lastLine(out.String())), "trunc: levels=%d input=%d alloc=%d errlen=%d ms=%d", &lv, &in, &alloc, &el, &ms); e != nil || err != nil {
+		c.Violate("deep-nesting-crash:other", fmt.Sprintf("subprocess decoding %d truncated nested textBold failed: %v: %.300s", levels, err, out.String()), -1, 0, replay{Mode: "trunc", Depth: levels})
+		return 0, false
+	}
+	c.Count(fmt.Sprintf("trunc:levels=%d", levels))
+	return alloc, true
+}
+
 // ---------- deep nesting (subprocess) ----------
 
 const maxUncompressed = 10 * 1024 * 1024 // proto/gzip.go: maxUncompressedSize
@@ -902,6 +1108,23 @@ func (h *H) deep(levels int) {
 	}
 }
 
+// truncOracle: the cost of a FAILING decode must stay proportional to the input.
+func (h *H) truncOracle() {
+	c := h.c
+	a1, ok1 := h.trunc(500)
+	a2, ok2 := h.trunc(1000)
+	if !ok1 || !ok2 {
+		return
+	}
+	c.Note(fmt.Sprintf("truncated nesting: 500 levels (2000 bytes) allocate %d bytes, 1000 levels (4000 bytes) allocate %d bytes (ratio %.1f)", a1, a2, float64(a2)/float64(a1+1)))
+	if a2 > 1000*4000 {
+		per := a2 / (1000 * 1000)
+		c.Violate("quadratic-memory:error-rewrap-under-deep-nesting",
+			fmt.Sprintf("decoding 1000 nested textBold without terminator (4000 bytes) fails after allocating %d bytes (%d for 500 levels: x%.1f for x2 input, ~%d bytes per level squared); 262144 levels (1 MiB, far below the 10 MiB limit) would need ~%d GiB: the process is OOM-killed",
+				a2, a1, float64(a2)/float64(a1+1), per, per*262144*262144>>30), -1, 0, replay{Mode: "trunc", Depth: 1000})
+	}
+}
+
 func lastLine(s string) string {
 	l := strings.Split(strings.TrimSpace(s), "\n")
 	for _, x := range l {
@@ -914,9 +1137,14 @@ func lastLine(s string) string {
 
 func main() {
 	deepN := flag.Int("deep", 0, "(internal) child mode: decode this many nested textBold and exit")
+	truncN := flag.Int("trunc", 0, "(internal) child mode: decode this many nested textBold WITHOUT terminator, print the allocation and exit")
 	c := hx.Start("C21", "Run.Check_C21", 80)
 	if *deepN > 0 {
 		deepChild(*deepN)
+		return
+	}
+	if *truncN > 0 {
+		truncChild(*truncN)
 		return
 	}
 	h := &H{c: c, maxCase: 60000, coqLeft: map[string]int{}}
@@ -926,6 +1154,7 @@ func main() {
 		newRegistry("e2e", 2, e2e.TypesConstructorMap(), e2e.ClassConstructorsMap()),
 	}
 	h.regs[0].boxes = discoverBoxes()
+	h.watchdog(90 * time.Second)
 
 	var rp replay
 	if c.LoadReplay(&rp) {
@@ -936,6 +1165,9 @@ func main() {
 			h.valueCase(reg, rp.ID, rp.Seed, rp.Canon, true)
 		case "bytes":
 			data, _ := hex.DecodeString(rp.Hex)
+			for i := 0; i < rp.Tail; i++ {
+				data = append(data, 0xff)
+			}
 			var box reflect.Type
 			for _, b := range reg.boxes {
 				if b.Name() == rp.Box {
@@ -945,6 +1177,8 @@ func main() {
 			h.bytesCase(reg, rp.Kind, rp.ID, box, data, "replay", true, 0)
 		case "deep":
 			h.deep(rp.Depth)
+		case "trunc":
+			h.truncOracle()
 		}
 		for _, v := range c.Obs.Violations {
 			fmt.Printf("replay: VIOLATION %s: %s\n", v.Sig, v.Desc)
@@ -1050,22 +1284,33 @@ func main() {
 		}
 		h.bytesCase(reg, meta.Kind, meta.ID, nil, data, "mutant:"+how, i%mstride == 0, bound)
 	}
-	// vector headers announcing 2^31-1 elements in front of nothing
-	for _, reg := range h.regs {
-		for _, id := range reg.ids {
-			t := reflect.TypeOf(reg.ctors[id]()).Elem()
-			if t.NumField() == 0 || t.Field(0).Type.Kind() != reflect.Slice || t.Field(0).Type.Elem().Kind() == reflect.Uint8 {
-				continue
+	// every top-level vector field of every constructor: boundary counts (negative, around the
+	// preallocation limit, maximal) and, for a sample, a huge count in front of a LARGE input
+	{
+		quickVals := []int32{-1, -1025, math.MinInt32, math.MaxInt32}
+		allVals := []int32{-1, -2, -1023, -1024, -1025, math.MinInt32, math.MinInt32 + 1, 0, 1023, 1024, 1025, 1 << 20, math.MaxInt32}
+		lb := newLargeBuf(c.N(8, 10) << 20)
+		nSites, k := 0, 0
+		for _, reg := range h.regs {
+			for _, id := range reg.ids {
+				for _, st := range h.vectorSites(reg, id, c.Rng) {
+					nSites++
+					if c.Thorough() || reg.sch != 0 {
+						h.countBoundaries(st, allVals, 30)
+					} else {
+						h.countBoundaries(st, quickVals, 60)
+					}
+					k++
+					if c.Thorough() || reg.sch != 0 || k%5 == 0 {
+						h.largeInput(st, math.MaxInt32, lb)
+						if c.Thorough() {
+							h.largeInput(st, 1<<21+7, lb)
+						}
+					}
+				}
 			}
-			var b bin.Buffer
-			b.PutID(id)
-			b.PutVectorHeader(math.MaxInt32)
-			h.bytesCase(reg, kBoxed, id, nil, b.Buf, "huge-count", c.Rng.Chance(1, 10), 1<<20)
-			var b2 bin.Buffer
-			b2.PutID(id)
-			b2.PutInt(math.MaxInt32)
-			h.bytesCase(reg, kBoxed, id, nil, b2.Buf, "huge-count", false, 1<<20)
 		}
+		c.Count(fmt.Sprintf("vector-sites=%d", nSites))
 	}
 	// class maps: every interface type met equals one ClassConstructorsMap entry
 	for _, reg := range h.regs {
@@ -1086,6 +1331,7 @@ func main() {
 	}
 	// deep nesting: as many textBold levels as fit below the 10 MiB decompression limit
 	h.deep(maxUncompressed/4 - 2)
+	h.truncOracle()
 	if c.Thorough() {
 		h.deep(1000000)
 	}
